@@ -31,6 +31,8 @@ pub struct HOp {
     pub ok: bool,
     pub err: String,
     pub desc: String,
+    pub seq0: u64,
+    pub seq1: u64,
 }
 
 /// effect of one operation on one sector
@@ -150,6 +152,8 @@ pub fn exec_par(w: &mut World, st: &Step) -> bool {
                         ok: true,
                         err: String::new(),
                         desc: format!("{op:?}"),
+                        seq0: sim.seq(),
+                        seq1: 0,
                     };
                     match op {
                         Op::Write { off, len } => {
@@ -226,6 +230,7 @@ pub fn exec_par(w: &mut World, st: &Step) -> bool {
                     let ret = tick.get() + 1;
                     tick.set(ret);
                     rec.ret = ret;
+                    rec.seq1 = sim.seq();
                     hist.borrow_mut().push(rec);
                 }
             }));
@@ -255,6 +260,29 @@ pub fn exec_par(w: &mut World, st: &Step) -> bool {
         return false;
     }
     let hist = hist.into_inner();
+    for h in &hist {
+        match &h.kind {
+            HKind::Write { base } => w.op_spans.push(crate::world::OpSpan {
+                start_seq: h.seq0,
+                end_seq: h.seq1,
+                off: h.off,
+                len: h.len,
+                base: Some(*base),
+                ok: h.ok,
+                conc: true,
+            }),
+            HKind::Discard => w.op_spans.push(crate::world::OpSpan {
+                start_seq: h.seq0,
+                end_seq: h.seq1,
+                off: h.off,
+                len: h.len,
+                base: None,
+                ok: h.ok,
+                conc: true,
+            }),
+            _ => {}
+        }
+    }
     // spurious failures
     if w.oracles.fault_free {
         for h in &hist {
